@@ -11,7 +11,7 @@
 //	  duplicate / re-spelt key, swap of any two children, cross-level swap),
 //	  every truncation prefix;
 //	ordered PAIRS of mutations (first: full list, second: reduced list) on the
-//	  120 smallest seeds (thorough: 320 smallest of ~500 — see `pair_seeds`;
+//	  100 smallest seeds (thorough: 320 smallest of ~500 — see `pair_seeds`;
 //	  byte-identical repeats within a seed are evaluated once);
 //	concatenations of two seeds with separators "", "\n", "," (quick: 60
 //	  smallest seeds; thorough: all);
@@ -298,7 +298,7 @@ func main() {
 	}
 
 	sd := seeds()
-	pairSeeds, catSeeds := 120, 60
+	pairSeeds, catSeeds := 100, 60
 	if r.Thorough() {
 		pairSeeds, catSeeds = 320, len(sd)
 	}
